@@ -195,7 +195,7 @@ class C01(Prop):
     design_ref = '§5 C01'
     rule = ('3..12 concurrent interactions of the five models started by either side, payload sizes 0..4 fragments (data and metadata), fragment size none/64/100, message and byte-stream framing '
             '(reads of 1..400 bytes), a quarter of the runs with a lease-honouring client whose requests wait for small grants (1..3) issued by the harness through the server\'s lease publisher, a fifth of the message-framing runs with client writes that take longer (45 ms of virtual time) than the client keepalive period (40 ms), so that the keepalive timer fires while the sender is inside a write, random delivery order between the two directions, publishers paced 1..3 elements per round, futures resolved late; non-trivial = at least one payload '
-            'spanning several fragments while another interaction is active; distinct = distinct case seed; plus a reconnecting client (1..3 reconnects after EOF / transport error / while healthy, from the harness or from on_close) with a fragmented peer request or response left half-received on the first stream ids when the connection goes away (the caller may have cancelled): the requests and responses of the next connection must arrive exactly as sent')
+            'spanning several fragments while another interaction is active; distinct = distinct case seed; plus a payload of about 17000..22000 fragments that reaches the receiver in one burst (message and byte-stream framing) with a small one behind it; plus a reconnecting client (1..3 reconnects after EOF / transport error / while healthy, from the harness or from on_close) with a fragmented peer request or response left half-received on the first stream ids when the connection goes away (the caller may have cancelled): the requests and responses of the next connection must arrive exactly as sent')
     assumptions = []
 
     def cases(self, rng, tier):
@@ -204,6 +204,10 @@ class C01(Prop):
                 'lease': rng.random() < 0.25,
                 # the client's writes take longer than its keepalive period: the keepalive timer fires while the sender is inside a write
                 'slow_ka': rng.random() < 0.2} for _ in range(n)]
+        # a payload of tens of thousands of fragments that reaches the receiver in one burst (everything the sender wrote is there before the
+        # receiver runs once): nothing of it may be lost on the way to the application
+        for i in range(2 if tier == 'quick' else 8):
+            out.append({'kind': 'huge', 'frag': 64, 'tcp': i % 2 == 1, 'size': rng.choice([1_000_000, 1_300_000]), 'side': rng.randint(0, 1), 'seed': rng.getrandbits(30)})
         # a reconnecting client: what the previous connection left half-received must not leak into the interactions of the next one
         for _ in range(80 if tier == 'quick' else 2000):
             out.append({'kind': 'reconnect', 'frag': 64, 'seed': rng.getrandbits(40), 'rounds': rng.randint(1, 3),
@@ -216,7 +220,51 @@ class C01(Prop):
     def run_impl(self, case):
         if case.get('kind') == 'reconnect':
             return detloop.run(self._reconnect, case)
+        if case.get('kind') == 'huge':
+            return detloop.run(self._huge, case)
         return detloop.run(self._scenario, case)
+
+    async def _huge(self, loop, case):
+        from rsocket.rsocket_client import RSocketClient
+        from rsocket.rsocket_server import RSocketServer
+        from rsocket.helpers import single_transport_provider, create_future
+        from rsocket.request_handler import BaseRequestHandler
+        from rsocket.payload import Payload
+        from datetime import timedelta
+        got = []
+
+        class H(BaseRequestHandler):
+            async def request_fire_and_forget(self, payload):
+                got.append([len(payload.data or b''), __import__('hashlib').sha1(bytes(payload.data or b'')).hexdigest()])
+        rng = random.Random(case['seed'])
+        lk = L.Link(loop, case['tcp'])
+        server = RSocketServer(lk.ends[1], handler_factory=H, fragment_size_bytes=case['frag'])
+        client = RSocketClient(single_transport_provider(lk.ends[0]), handler_factory=H, fragment_size_bytes=case['frag'],
+                               keep_alive_period=timedelta(seconds=100000), max_lifetime_period=timedelta(seconds=1000000))
+        await client.connect()
+        await loop.settle()
+        while await lk.deliver(0, rng):
+            await loop.settle()
+        data = bytes((i * 7 + 3) % 251 for i in range(case['size']))
+        side = case['side']
+        [client, server][side].fire_and_forget(Payload(data))
+        small = Payload(b'after')
+        await loop.settle()           # the sender writes every fragment: all of it is on the link now
+        [client, server][side].fire_and_forget(small)
+        await loop.settle()
+        n = await lk.deliver_burst(side)
+        await loop.settle()
+        for _ in range(5):
+            await lk.deliver_burst(side)
+            await loop.settle()
+        want = [[len(data), __import__('hashlib').sha1(data).hexdigest()], [5, __import__('hashlib').sha1(b'after').hexdigest()]]
+        res = {'want': want, 'got': got, 'messages': n, 'pump_dead': lk.ends[1 - side].pump_dead if not case['tcp'] else None}
+        try:
+            await client.close()
+            await server.close()
+        except Exception:
+            pass
+        return res
 
     async def _reconnect(self, loop, case):
         from harness import clientrun, simnet
@@ -461,6 +509,11 @@ class C01(Prop):
 
     def oracle(self, case, obs):
         fails = []
+        if case.get('kind') == 'huge':
+            if obs['got'] != obs['want']:
+                fails.append({'signature': 'one-way-payload-not-delivered-exactly-once:huge', 'what': 'a fire-and-forget of %d bytes (%d fragments arriving in one burst) and a small one behind it: the handler received %s (sizes), expected %s%s' % (
+                    case['size'], obs['messages'], [g[0] for g in obs['got']], [w[0] for w in obs['want']], '; the receiving pump ended with %s' % obs['pump_dead'] if obs.get('pump_dead') else '')})
+            return fails
         if case.get('kind') == 'reconnect':
             if obs['got_req'] != obs['want_req']:
                 fails.append({'signature': 'request-payload-altered:after-reconnect', 'what': 'the peer sent the requests %s over the successive connections, the handler received %s' % (_short(obs['want_req']), _short(obs['got_req']))})
@@ -508,6 +561,8 @@ class C01(Prop):
         return fails
 
     def nontrivial(self, case, obs):
+        if case.get('kind') == 'huge':
+            return json.dumps(case, sort_keys=True)
         if case.get('kind') == 'reconnect':
             return json.dumps(case, sort_keys=True)
         return str(case['seed']) if case['frag'] else None
@@ -515,6 +570,9 @@ class C01(Prop):
     def stats(self, case, obs):
         if case.get('lease'):
             yield 'lease-gated-client'
+        if case.get('kind') == 'huge':
+            yield 'kind=huge-burst'
+            return
         if case.get('kind') == 'reconnect':
             yield 'kind=reconnect'
             for c in case['cut'][:case['rounds']]:
